@@ -563,11 +563,14 @@ def parse_lrcr_crb(fdata: bytes, header: Header) -> List[str]:
                                       fdata[idxc:idxc+4])[0] - 1
             idxc += 4
             #logging.debug("strlength = %s", strlength) 
-            declared += 4 + max(0, strlength)
+            # (a negative length makes the slice end count from the end of
+            # the file: what is declared is the bytes the slice really takes)
+            strdata = fdata[idxc:idxc+strlength]
+            declared += 4 + len(strdata)
             if declared > len(fdata):
                 raise ValueError("Constant data larger than the file!")
 
-            strval = fdata[idxc:idxc+strlength].decode(get_encoding())
+            strval = strdata.decode(get_encoding())
             constants.append(escape_string(strval))
 
 
@@ -584,11 +587,12 @@ def parse_lrcr_crb(fdata: bytes, header: Header) -> List[str]:
                                         fdata[idxc:idxc+4])[0]
             idxc += 4
             #logging.debug("floatlength = %s", floatlength)
-            declared += 4 + max(0, floatlength)
+            floatdata = fdata[idxc:idxc+floatlength]
+            declared += 4 + len(floatdata)
             if declared > len(fdata):
                 raise ValueError("Constant data larger than the file!")
             
-            float_val =  unpack_float80(fdata[idxc:idxc+floatlength])
+            float_val =  unpack_float80(floatdata)
             #logging.debug("float Value = %s", float_val)
             constants.append(float_val)
 
